@@ -521,10 +521,10 @@ XIncludeUtils::doXIncludeXMLFileDOM(const XMLCh *href,
                 } else {
                     /* the included node has base of its own which takes precedence */
                     XIncludeLocation xil(getBaseAttrValue(topLevelElement));
-                    if (getBaseAttrValue(includeNode) != NULL){
-                        /* prepend any specific base modification of the xinclude node */
-                        xil.prependPath(getBaseAttrValue(includeNode));
-                    }
+                    /* it is relative to the included document: prepend the directory of the
+                       relative href (which already carries any base modification of the
+                       xinclude node) */
+                    xil.prependPath(relativeHref);
                     topLevelElement->setAttribute(fgXIBaseAttrName, xil.getLocation());
                 }
             }
